@@ -12,6 +12,7 @@ from collections import OrderedDict
 from hv import boot  # noqa: F401
 from hv import vtime
 from hv.core import Result, viol
+from hv.exckit import OWN_CLASSES, make_own
 from hv.vloop import Livelock
 from hv.world import Action, Chooser, World
 
@@ -52,6 +53,8 @@ class Produced:
 def programs(tier: str):
     yield from _five(tier)
     yield from _fine(tier)
+    yield from _own_errors(tier)
+    yield from _colliding(tier)
     yield from _three_keys(tier)
     yield from _wrapped(tier)
     b = BOUNDS[tier]
@@ -97,6 +100,22 @@ def _fine(tier: str):
                     yield {"keys": keys, "limit": limit, "expiration": None, "outcome": outcome, "cancels": 1, "batch": 1, "variant": variant, "fine": True}
 
 
+def _own_errors(tier: str):
+    # the shared invocation fails with an exception of a class the cache might handle internally
+    # (KeyError, LookupError, TimeoutError ...): every caller gets that very object
+    for k in range(len(OWN_CLASSES)):
+        for keys in ("aa", "aaa"):
+            yield {"keys": keys, "limit": 1, "expiration": None, "outcome": f"own:{k}", "cancels": 0, "batch": 1, "variant": "function"}
+
+
+def _colliding(tier: str):
+    # two different keys whose hashes are equal (-1 and -2): two entries, two invocations
+    for keys in ("ab", "aab", "abab"):
+        for limit in (1, 2):
+            for cancels in (0, 1):
+                yield {"keys": keys, "limit": limit, "expiration": None, "outcome": "value", "cancels": cancels, "batch": 1, "variant": "function", "keymap": {"a": -1, "b": -2}}
+
+
 def _wrapped(tier: str):
     # the cached function stacked under another haiway wrapper / called from inside scopes: sharing
     # and isolation must not depend on it
@@ -135,6 +154,8 @@ def execute(program, ch: Chooser) -> Result:  # noqa: C901, PLR0912, PLR0915
         started: list[dict] = []  # invocations in start order
 
         async def body(key):
+            if program.get("keymap"):
+                key = {v: k for k, v in program["keymap"].items()}[key]  # back to the letter
             rec = {"key": key, "n": len(started), "saw_cancel": False, "done": False}
             started.append(rec)
             try:
@@ -146,6 +167,9 @@ def execute(program, ch: Chooser) -> Result:  # noqa: C901, PLR0912, PLR0915
             rec["done"] = True
             if program["outcome"] == "exc":
                 rec["exc"] = InvErr(f"inv{rec['n']}")
+                raise rec["exc"]
+            if program["outcome"].startswith("own:"):
+                rec["exc"] = make_own(OWN_CLASSES[int(program["outcome"][4:])], f"inv{rec['n']}")
                 raise rec["exc"]
             rec["val"] = Produced(rec["n"])
             return rec["val"]
@@ -203,12 +227,13 @@ def execute(program, ch: Chooser) -> Result:  # noqa: C901, PLR0912, PLR0915
 
         async def caller_body(i: int):
             model_call(i, keys[i])
+            km = program.get("keymap")
             try:
-                results[i] = ("value", await fn(keys[i]))
+                results[i] = ("value", await fn(km[keys[i]] if km else keys[i]))
             except asyncio.CancelledError:
                 results[i] = ("cancelled",)
                 raise
-            except InvErr as exc:
+            except Exception as exc:  # noqa: BLE001 - the invocation's own error (any class)
                 results[i] = ("raised", exc)
 
         tasks: list[asyncio.Task] = []
